@@ -87,17 +87,17 @@ pub enum Step {
 }
 
 fn edgy_max(r: &mut Rng) -> u32 {
-    match r.below(16) {
+    match r.below(48) {
         0 => 0,
         1 => MINIMUM_PDU_SIZE - 1,
-        2 | 3 => MINIMUM_PDU_SIZE,
-        4 => MINIMUM_PDU_SIZE + 1,
-        5 => DEFAULT_MAX_PDU,
-        6 => MAXIMUM_PDU_SIZE,
-        7 => MAXIMUM_PDU_SIZE + 1,
-        8 => u32::MAX,
-        9 => r.range(1, 1017) as u32,
-        _ => r.range(MINIMUM_PDU_SIZE as u64, 40000) as u32,
+        2 => r.range(1, 1017) as u32,
+        3..=8 => MINIMUM_PDU_SIZE,
+        9 | 10 => MINIMUM_PDU_SIZE + 1,
+        11..=13 => DEFAULT_MAX_PDU,
+        14 | 15 => MAXIMUM_PDU_SIZE,
+        16 => MAXIMUM_PDU_SIZE + 1,
+        17 => u32::MAX,
+        _ => r.range(MINIMUM_PDU_SIZE as u64, 12000) as u32,
     }
 }
 
@@ -107,6 +107,12 @@ pub fn gen_case(uni: &Universe, r: &mut Rng) -> (ClientSpec, Cfg, Vec<Step>) {
     cfg.maxpdu = edgy_max(r);
     if r.chance(3, 4) {
         cfg.ac = Ac::Any;
+    }
+    if r.chance(2, 3) {
+        cfg.ts.clear();
+    }
+    if r.chance(1, 3) {
+        cfg.prom = true;
     }
     if r.chance(2, 3) && !cfg.abs.iter().any(|a| a.trim_end_matches('\0') == A_VERIF) {
         cfg.abs.push(A_VERIF.into());
@@ -126,6 +132,10 @@ pub fn gen_case(uni: &Universe, r: &mut Rng) -> (ClientSpec, Cfg, Vec<Step>) {
         for _ in 0..(if r.chance(1, 15) { 0 } else { r.range(1, 4) }) {
             let t = uni.rand_ts(r);
             tss.push(if sloppy { t } else { clean(&t) });
+        }
+        if r.chance(2, 3) {
+            let k = r.usize(0, tss.len());
+            tss.insert(k, if r.chance(1, 2) { T_IMPL.to_string() } else { format!("{}\0", T_EXPL) });
         }
         contexts.push((a, tss));
     }
@@ -175,7 +185,7 @@ pub fn gen_case(uni: &Universe, r: &mut Rng) -> (ClientSpec, Cfg, Vec<Step>) {
     for _ in 0..r.below(5) {
         let by = if r.chance(1, 2) { Side::Requestor } else { Side::Acceptor };
         let peer_max = if by == Side::Requestor { eff(cfg.maxpdu) } else { eff(cs.maxpdu) };
-        let around = peer_max <= 100_000;
+        let around = peer_max <= 33_000;
         if r.chance(2, 3) {
             // total encoded length = 6 + sum(6 + len); limit = peer_max + 6
             let npdv = r.range(1, 3);
@@ -188,7 +198,7 @@ pub fn gen_case(uni: &Universe, r: &mut Rng) -> (ClientSpec, Cfg, Vec<Step>) {
                     _ => r.range(12, peer_max + 6) as i64,
                 }
             } else {
-                r.range(12, 60000) as i64
+                r.range(12, 20000) as i64
             };
             let payload = (target - 6 - 6 * npdv as i64).max(0) as u64;
             let mut pdvs = vec![];
@@ -200,7 +210,7 @@ pub fn gen_case(uni: &Universe, r: &mut Rng) -> (ClientSpec, Cfg, Vec<Step>) {
             }
             script.push(Step::Pd(by, pdvs));
         } else {
-            let nbytes = if around { r.range(0, 3 * peer_max + 10) } else { r.range(0, 100_000) };
+            let nbytes = if around { r.range(0, 3 * peer_max + 10) } else { r.range(0, 30_000) };
             script.push(Step::Wr(by, nbytes as u32));
         }
     }
@@ -345,7 +355,7 @@ pub fn merge_steps(script: &[Step], cli: &[String], srv: &[String]) -> String {
         let c = cli.get(k).cloned().unwrap_or_else(|| "-".into());
         let v = srv.get(k).cloned().unwrap_or_else(|| "-".into());
         let (snd, rcv) = if by == Side::Requestor { (c, v) } else { (v, c) };
-        s.push_str(&format!(" {}:{}:{}:{}:{}", kind, if by == Side::Requestor { "c" } else { "s" }, if sizes.is_empty() { "-".into() } else { sizes }, snd, rcv));
+        s.push_str(&format!(" {}/{}/{}/{}/{}", kind, if by == Side::Requestor { "c" } else { "s" }, if sizes.is_empty() { "-".into() } else { sizes }, snd, rcv));
     }
     s
 }
